@@ -51,12 +51,24 @@ class Prov:
                     if k.arg == 'quote' and not (isinstance(k.value, ast.Constant) and k.value.value is True):
                         return ('RAW', 'html.escape with quote disabled')
                 if len(e.args) > 1 and not (isinstance(e.args[1], ast.Constant) and e.args[1].value is True): return ('RAW', 'html.escape with quote disabled')
+                if e.args and any(isinstance(c, ast.Call) and ast.unparse(c.func).endswith('unescape') for c in ast.walk(e.args[0])):
+                    return ('RAW', 'escaped after html.unescape: text that spells a character reference is no longer shown verbatim')
                 return ('ESC', ast.unparse(e.args[0]) if e.args else '')
             if f == 'str' and e.args: return self.classify(e.args[0])
             if f in self.safe_html_funcs:
                 return ('HTML', f)
             if f == self.badge_func: return ('BADGEPAIR', ast.unparse(e.args[0]) if e.args else '')
             if f == 'os.path.abspath': return ('RAW', f)
+            # a helper of the same module whose every return is an escaped / constant / composite value (its parameters being RAW):
+            # judged by this very analysis on the helper's own body
+            if isinstance(e.func, ast.Name) and e.func.id in self.mod.funcs and f != self.qual.split(':')[1] and getattr(self, 'depth', 0) < 3:
+                sub = Prov(self.prog, f'{self.mod.name}:{e.func.id}', self.safe_html_funcs, self.badge_func); sub.depth = getattr(self, 'depth', 0) + 1
+                rets = []
+                for n in ast.walk(sub.fn):
+                    if isinstance(n, ast.Return): rets.append(n)
+                sub.run()
+                ok = bool(rets) and not sub.problems and all(r.value is not None and sub.classify(r.value)[0] in ('ESC', 'CONST', 'COMPOSITE') for r in rets)
+                if ok: return ('ESC', f'helper {f}: every return is escaped')
             return ('RAW', f'call {f}')
         if isinstance(e, ast.IfExp):
             a, b = self.classify(e.body), self.classify(e.orelse)
